@@ -307,6 +307,17 @@ static int idx(const char *s)
 	return v;
 }
 
+/* C18: "descriptors handed to the library for registration are switched to non-blocking, close-on-exec mode" --
+   the model has no descriptor flags, so this is a harness rule: an extra segment that the model never prints */
+static void check_fd_flags(int i, int fd)
+{
+	int fl = vk_fd_flags(fd);
+
+	if (fl >= 0 && fl != 3)
+		vk_trace("X fr%d: descriptor %d is %s%s after registration", i, fd,
+			 fl & 1 ? "" : "still blocking ", fl & 2 ? "" : "not close-on-exec");
+}
+
 static void do_action(const char *a)
 {
 	switch (a[0]) {
@@ -319,6 +330,7 @@ static void do_action(const char *a)
 			if (!iv_fd_registered(f) && vk_get(f->fd) != NULL && !vk_get(f->fd)->closed) {
 				vk_trace("a %s", a);
 				iv_fd_register(f);
+				check_fd_flags(i, f->fd);
 			}
 			break;
 		case 't':
@@ -329,6 +341,8 @@ static void do_action(const char *a)
 				rc = iv_fd_register_try(f);
 
 				vk_trace("A ft%d=%d", i, rc ? -1 : 0);
+				if (rc == 0)
+					check_fd_flags(i, f->fd);
 			}
 			break;
 		case 'u':
